@@ -9,9 +9,10 @@
    read_char_array_values, read_string_values, read_string_array_values): one descriptor
    Type::String(max_len) for the whole series, then one cell of max_len bytes per sample, padded
    with NUL; a missing sample is the cell ".".
-   Model: definitions only.  Strings are byte lists (the Rust side holds valid UTF-8; ',' '.' and
-   NUL are single bytes in UTF-8, so splitting and padding agree); a Character is one byte < 128
-   (ASCII) -- multi-byte characters are outside the model. *)
+   Model: definitions only.  Strings are byte lists; the readers reject bytes that are not
+   well-formed UTF-8 (Typed.utf8_valid; ',' '.' and NUL are single bytes in UTF-8, so splitting and
+   padding agree with str::split); a Character is one byte < 128 (ASCII) -- multi-byte characters
+   are outside the model. *)
 From Coq Require Import ZArith NArith List Bool.
 From NV Require Import Bcf.Ints Bcf.Typed.
 Import ListNotations.
@@ -160,7 +161,9 @@ Fixpoint dec_cells (ns len : nat) (bs : list N) : option (list str) :=
     match take len bs with
     | None => None
     | Some (x, r) =>
-      match dec_cells ns' len r with Some xs => Some (until_nul x :: xs) | None => None end
+      if utf8_valid (until_nul x) then                                   (* else InvalidString *)
+        match dec_cells ns' len r with Some xs => Some (until_nul x :: xs) | None => None end
+      else None
     end
   end.
 
